@@ -19,6 +19,14 @@
                            (an OCCURS array, an elementary item), ValueError for an elementary
                            item without picture (calcsize).
 
+   The constants of DDE.__init__ and structure() are read from the source on every run (T1,
+   harness/t1_text.py -> Gen/StructureParams.v): the default name and the name that is numbered
+   (default_name, filler_name), the increment and the format of the generated names (filler_step,
+   gen_prefix, gen_suffix), the levels that reset the counter (reset_levels), the levels the loop skips
+   (skipped_levels) and the comparison of the pop loop (pop_cmp).  The statement shapes around them are
+   fixed (the extractor accepts no other).  structure() itself starts from the counter value zero
+   (reset_at_start: Proofs/StructureP.v checks that the source still says so).
+
    Strings are lists of code points.  A level is the pair of code points of its two characters,
    compared the way Python compares two-character strings.
    The forest is built with a stack of open nodes (innermost first); a node is attached to its
@@ -27,13 +35,27 @@
 From Coq Require Import NArith List Bool Arith.
 Import ListNotations.
 Require Import SR.Base.Res.
+Require Import SR.Gen.StructureParams.
 
 Definition str := list N.
 Definition lvl := (N * N)%type.
 
 Definition lvl_leb (a b : lvl) : bool :=
   (fst a <? fst b)%N || ((fst a =? fst b)%N && (snd a <=? snd b)%N).
+Definition lvl_ltb (a b : lvl) : bool :=
+  (fst a <? fst b)%N || ((fst a =? fst b)%N && (snd a <? snd b)%N).
 Definition lvl_eqb (a b : lvl) : bool := (fst a =? fst b)%N && (snd a =? snd b)%N.
+
+(* a OP b on two-character strings; OP numbered as in Gen/StructureParams.v pop_cmp *)
+Definition lvl_cmp (op : N) (a b : lvl) : bool :=
+  match op with
+  | 0 => lvl_leb a b
+  | 1 => lvl_ltb a b
+  | 2 => lvl_leb b a
+  | 3 => lvl_ltb b a
+  | 4 => lvl_eqb a b
+  | _ => negb (lvl_eqb a b)
+  end%N.
 
 Fixpoint str_eqb (a b : str) : bool :=
   match a, b with
@@ -47,7 +69,8 @@ Definition L66 : lvl := (54, 54)%N.
 Definition L77 : lvl := (55, 55)%N.
 Definition L88 : lvl := (56, 56)%N.
 
-(* the six letters FILLER, and FILLER followed by a hyphen *)
+(* the six letters FILLER, and FILLER followed by a hyphen (literals, for the files that quote them;
+   what DDE.__init__ uses is default_name, filler_name, gen_prefix of Gen/StructureParams.v) *)
 Definition FILLER : str := [70; 73; 76; 76; 69; 82]%N.
 Definition FILLER_dash : str := [70; 73; 76; 76; 69; 82; 45]%N.
 (* REDEFINES followed by a hyphen *)
@@ -67,10 +90,10 @@ Record entry := {
 Definition dde_name (e : entry) : str :=
   match ename e with
   | Some n => n
-  | None => match efill e with Some f => f | None => FILLER end
+  | None => match efill e with Some f => f | None => default_name end
   end.
 
-Definition is_filler (e : entry) : bool := str_eqb (dde_name e) FILLER.
+Definition is_filler (e : entry) : bool := str_eqb (dde_name e) filler_name.
 
 (* str(n) for a natural number: digits least significant first, then reversed *)
 Fixpoint dec_lsb (fuel : nat) (n : N) : list N :=
@@ -80,7 +103,10 @@ Fixpoint dec_lsb (fuel : nat) (n : N) : list N :=
   end.
 Definition dec (n : N) : str := rev (dec_lsb (S (N.to_nat n)) n).
 
-Definition gen_name (n : N) : str := FILLER_dash ++ dec n.
+Definition gen_name (n : N) : str := gen_prefix ++ dec n ++ gen_suffix.
+
+(* self.level is one of the levels that restart the numbering *)
+Definition is_reset (l : lvl) : bool := existsb (lvl_eqb l) reset_levels.
 
 (* A DDE object: the entry and its unique_name. *)
 Record dde := { de : entry; du : str }.
@@ -90,17 +116,16 @@ Fixpoint mk_ddes (cnt : N) (l : list entry) : list dde :=
   match l with
   | [] => []
   | e :: r =>
-      let c0 := if lvl_eqb (elv e) L01 then 0%N else cnt in
+      let c0 := if is_reset (elv e) then 0%N else cnt in
       if is_filler e
-      then let c1 := (c0 + 1)%N in {| de := e; du := gen_name c1 |} :: mk_ddes c1 r
+      then let c1 := (c0 + filler_step)%N in {| de := e; du := gen_name c1 |} :: mk_ddes c1 r
       else {| de := e; du := dde_name e |} :: mk_ddes c0 r
   end.
 
 Definition dlv (d : dde) : lvl := elv (de d).
 
-(* node.level in the set of 66, 77, 88 *)
-Definition skipped (d : dde) : bool :=
-  lvl_eqb (dlv d) L66 || lvl_eqb (dlv d) L77 || lvl_eqb (dlv d) L88.
+(* node.level in the set of skipped levels (66, 77, 88) *)
+Definition skipped (d : dde) : bool := existsb (lvl_eqb (dlv d)) skipped_levels.
 Definition keep (d : dde) : bool := negb (skipped d).
 
 (* A DDE with its children; based = its clauses[redefines] was overwritten with its own name
@@ -121,10 +146,13 @@ Definition close (f : frame) : tree := TNode (fd f) false (fkids f).
 Definition attach (t : tree) (f : frame) : frame := {| fd := fd f; fkids := fkids f ++ [t] |}.
 Definition open (d : dde) : frame := {| fd := d; fkids := [] |}.
 
+(* node.level OP bottom.level, OP = pop_cmp (<= in the source as it is) *)
+Definition pop_test (x y : lvl) : bool := lvl_cmp pop_cmp x y.
+
 (* while bottom and node.level <= bottom.level: bottom = bottom.parent
    inl (b, rest): bottom = b;  inr t: bottom is None, t = the tree just left *)
 Fixpoint pop (x : lvl) (cur : frame) (rest : list frame) : (frame * list frame) + tree :=
-  if lvl_leb x (dlv (fd cur)) then
+  if pop_test x (dlv (fd cur)) then
     match rest with
     | [] => inr (close cur)
     | p :: rest' => pop x (attach (close cur) p) rest'
@@ -185,7 +213,7 @@ Definition structure_ddes (l : list dde) : res (list tree) :=
       end
   end.
 
-(* structure(sentences) *)
+(* structure(sentences): DDE.filler_count = 0 first (reset_at_start), then the DDE objects *)
 Definition structure (l : list entry) : res (list tree) := structure_ddes (mk_ddes 0 l).
 
 (* ------------------------------------------------------------------ reading a forest *)
